@@ -11,7 +11,7 @@
      is_v2 ver                         the balance-version string selects the incremental algorithm
      even_topology nodes k             every data centre that occurs has exactly k nodes
      dcs_of nodes / node_dc nodes x    the sorted data-centre names / the data centre of node x  *)
-From ZV Require Import Common.Bytes Part.Model Place.Consts Place.Model Place.Proofs Place.ProofsV2 Place.SweepDefs Place.ProofsV2Fresh Place.ProofsOrder.
+From ZV Require Import Common.Bytes Part.Model Place.Consts Place.Model Place.Proofs Place.ProofsV2 Place.SweepDefs Place.ProofsV2Fresh Place.ProofsOrder Place.ProofsConsumers Place.ProofsKeep.
 From Coq Require Import Permutation.
 Open Scope nat_scope.
 
@@ -149,6 +149,61 @@ Definition C17_v2_fresh_dc_spread_unbounded : Prop := forall ver ns p r nodes k 
   even_topology nodes k -> N.to_nat r <= length (dcs_of nodes) ->
   rebalance ver ns p r [] nodes = Ok l ->
   Forall (fun nl => NoDup (map (node_dc nodes) nl)) l.
+
+(* (7) what V2 keeps of the previous layout (data stability) — exactly what the code guarantees:
+   fill phase: an old member (within the first r of its list) that is still alive stays in its slot; a slot
+   whose old member is dead or absent gets a live node outside the (trimmed) old list *)
+Theorem C17_v2_fill_keeps_survivors : forall h p r olds (ring : list (list N)) ls parts,
+  v2_fill_phase h p r olds ring = Ok (ls, parts) ->
+  forall pid j, pid < p -> j < r ->
+    let old := nth pid olds [] in
+    (In (nth j old []) ring -> nth j (nth pid parts []) [] = nth j old []) /\
+    (~ In (nth j old []) ring -> In (nth j (nth pid parts []) []) ring /\ ~ In (nth j (nth pid parts []) []) (firstn r old)).
+Proof. exact v2_fill_phase_keeps. Qed.
+Print Assumptions C17_v2_fill_keeps_survivors.
+
+(* when the load maps are balanced after the fill phase nothing is moved: every surviving replica keeps
+   its place in the final layout *)
+Theorem C17_v2_keeps_when_balanced : forall h p r olds (ring : list (list N)) ls parts,
+  v2_fill_phase h p r olds ring = Ok (ls, parts) -> balanced ls = true ->
+  fill_v2 h p r olds ring = Ok parts /\
+  forall pid j, pid < p -> j < r -> In (nth j (nth pid olds []) []) ring ->
+    nth j (nth pid parts []) [] = nth j (nth pid olds []) [].
+Proof. exact fill_v2_keeps_when_balanced. Qed.
+Print Assumptions C17_v2_keeps_when_balanced.
+
+(* otherwise each moveIfUnbalanced step rewrites at most one partition list (and there are at most r*p+1
+   steps); the code promises nothing more: a balance move may replace a surviving member *)
+Theorem C17_v2_move_one_list : forall ls parts ls' parts' b,
+  move_step ls parts = Ok (ls', parts', b) ->
+  exists k, forall i, i <> k -> nth i parts' [] = nth i parts [].
+Proof. exact move_step_one_list. Qed.
+Print Assumptions C17_v2_move_one_list.
+
+(* (8) how the coordinator consumes the layout. allocNodeForNamespace (the node added to a partition that
+   lacks replicas): never panics; the node is alive and not yet a raft node of the partition, so RaftNodes
+   stays duplicate-free (C18's invariant) and exactly one node is added per call; one is found whenever the
+   partition has fewer than r raft nodes and the cluster has >= r nodes *)
+Theorem C17_alloc_node : forall ver ns p r isrs nodes part,
+  NoDup (map fst nodes) -> ~ In [] (map fst nodes) -> nodes <> [] -> olds_ok (N.to_nat p) isrs -> part < N.to_nat p ->
+  alloc_node ver ns p r isrs nodes part <> Panic /\
+  (forall x, alloc_node ver ns p r isrs nodes part = Ok x ->
+     In x (map fst nodes) /\ ~ In x (nth part isrs [])) /\
+  ((r <= N.of_nat (length nodes))%N -> length (nth part isrs []) < N.to_nat r ->
+     exists x, alloc_node ver ns p r isrs nodes part = Ok x).
+Proof. exact alloc_node_spec. Qed.
+Print Assumptions C17_alloc_node.
+
+(* decideUnwantedRaftNode (the node dropped from an over-replicated partition): never panics; it names one
+   node, an ISR member of the partition outside the wanted list; it names one whenever the ISR is longer than r *)
+Theorem C17_unwanted_node : forall ver ns p r isrs nodes part,
+  NoDup (map fst nodes) -> ~ In [] (map fst nodes) -> nodes <> [] -> olds_ok (N.to_nat p) isrs -> part < N.to_nat p ->
+  exists x, unwanted_node ver ns p r isrs nodes part = Ok x /\
+  (x <> [] -> In x (nth part isrs [])) /\
+  ((r <= N.of_nat (length nodes))%N -> ~ In [] (nth part isrs []) -> N.to_nat r < length (nth part isrs []) ->
+     x <> [] /\ exists l wanted, rebalance ver ns p r isrs nodes = Ok l /\ nth_error l part = Some wanted /\ ~ In x wanted).
+Proof. exact unwanted_node_spec. Qed.
+Print Assumptions C17_unwanted_node.
 
 (* ---------- non-vacuity ---------- *)
 Open Scope N_scope.
